@@ -132,6 +132,13 @@ class NVSubroutineTranspiler(SubroutineTranspiler):
 
         index_changes = {}  # map index in commands to index in new_commands
 
+        # A register that the subroutine uses anywhere (also further on) can never
+        # serve as scratch register: it may hold a value that is still needed.
+        for instr in self._subroutine.instructions:
+            for op in instr.operands:
+                if isinstance(op, Register):
+                    self._used_registers.update([op])
+
         for i, instr in enumerate(self._subroutine.instructions):
             # check which registers are being written to
             affected_regs = instr.writes_to()
